@@ -62,6 +62,48 @@ theorem notes_named_after_own_basis (sub ext refext : String) (e : Entry) (data 
   rw [this]
   simp [hne]
 
+/-- **exactly**: a pair is an archive member iff it is the README, a member of a basis the format can express, or the
+notes of a family that has notes — the converse of `gated_out_absent` included -/
+theorem bundleMembers_iff (fmt reffmt ext refext readme : String) (entries : List Entry)
+    (data : String → String → Option (String × String)) (fam : List (String × String)) (m : String × String) :
+    m ∈ bundleMembers fmt reffmt ext refext readme entries data fam ↔
+      m = ("basis_set_bundle-" ++ fmt ++ "-" ++ reffmt ++ "/README.txt", readme)
+      ∨ (∃ e ∈ entries, gate fmt e.ftypes = true ∧ m ∈ entryMembers ("basis_set_bundle-" ++ fmt ++ "-" ++ reffmt) ext refext e data)
+      ∨ (∃ f ∈ fam, f.2.isEmpty = false ∧ m = ("basis_set_bundle-" ++ fmt ++ "-" ++ reffmt ++ "/" ++ f.1 ++ ".family_notes", f.2)) := by
+  constructor
+  · exact gated_out_absent fmt reffmt ext refext readme entries data fam m
+  · intro h
+    unfold bundleMembers
+    simp only [List.mem_append, List.mem_singleton, List.mem_flatMap, List.mem_filter, List.mem_map]
+    rcases h with rfl | ⟨e, he, hg, hm⟩ | ⟨f, hf, hne, rfl⟩
+    · exact Or.inl (Or.inl rfl)
+    · exact Or.inl (Or.inr ⟨e, ⟨he, hg⟩, hm⟩)
+    · exact Or.inr ⟨f, ⟨hf, by simp [hne]⟩, rfl⟩
+
+/-- **every family that has notes gets its notes file, whatever the format can express**: the family-notes members do
+not depend on the entries or on the gate (a family all of whose basis sets are gated out keeps its notes) -/
+theorem family_notes_always_present (fmt reffmt ext refext readme : String) (entries : List Entry)
+    (data : String → String → Option (String × String)) (fam : List (String × String)) (f : String × String)
+    (hf : f ∈ fam) (hne : f.2.isEmpty = false) :
+    ("basis_set_bundle-" ++ fmt ++ "-" ++ reffmt ++ "/" ++ f.1 ++ ".family_notes", f.2)
+      ∈ bundleMembers fmt reffmt ext refext readme entries data fam :=
+  (bundleMembers_iff fmt reffmt ext refext readme entries data fam _).2 (Or.inr (Or.inr ⟨f, hf, hne, rfl⟩))
+
+/-- **every expressible version is present with both files** -/
+theorem version_files_present (fmt reffmt ext refext readme : String) (entries : List Entry)
+    (data : String → String → Option (String × String)) (fam : List (String × String))
+    (e : Entry) (he : e ∈ entries) (hg : gate fmt e.ftypes = true) (v : String) (hv : v ∈ e.versions)
+    (bs ref : String) (hd : data e.key v = some (bs, ref)) :
+    ("basis_set_bundle-" ++ fmt ++ "-" ++ reffmt ++ "/" ++ e.key ++ "." ++ v ++ ext, bs)
+        ∈ bundleMembers fmt reffmt ext refext readme entries data fam
+    ∧ ("basis_set_bundle-" ++ fmt ++ "-" ++ reffmt ++ "/" ++ e.key ++ "." ++ v ++ ".ref" ++ refext, ref)
+        ∈ bundleMembers fmt reffmt ext refext readme entries data fam := by
+  constructor
+  · exact (bundleMembers_iff ..).2 (Or.inr (Or.inl ⟨e, he, hg,
+      (entryMembers_spec _ ext refext e data _).2 (Or.inl ⟨v, hv, bs, ref, hd, Or.inl rfl⟩)⟩))
+  · exact (bundleMembers_iff ..).2 (Or.inr (Or.inl ⟨e, he, hg,
+      (entryMembers_spec _ ext refext e data _).2 (Or.inl ⟨v, hv, bs, ref, hd, Or.inr rfl⟩)⟩))
+
 example : gate "veloxchem" ["gto", "scalar_ecp"] = false ∧ gate "nwchem" ["gto", "scalar_ecp"] = true ∧ gate "json" ["anything"] = true := by
   decide
 
